@@ -68,7 +68,8 @@ def rewrite_method_calls(text, table):
         args = text[toks[dot + 2].e:toks[close].s].strip()
         tramp = table[name]
         if isinstance(tramp, tuple):      # (name, 'ref'): the method takes &self and the receiver is used again afterwards
-            tramp, recv = tramp[0], '&' + recv
+            # (name, 'mut'): the method takes &mut self
+            tramp, recv = tramp[0], ('&mut ' if tramp[1] == 'mut' else '&') + recv
         new = f'{tramp}({recv}{", " + args if args else ""})'
         text = text[:toks[rs].s] + new + text[toks[close].e:]
         counts[name] = counts.get(name, 0) + 1
